@@ -418,20 +418,23 @@ func c08LiveIsRunning(e *Env) {
 	_, ss := e.EnumOf(schedRel, "Status")
 	running := ConstVal(ss, "StatusRunning")
 	ok := false
-	for _, ci := range ir.CallsIn(h, func(c *ssa.CallCommon) bool { return strings.HasSuffix(ir.CalleeName(c), "model.Status).ToJSON") }) {
-		recv := ir.Resolve(ci.Common().Args[0])
-		for _, b := range h.Blocks {
-			for _, in := range b.Instrs {
-				st, isS := in.(*ssa.Store)
-				if !isS {
-					continue
-				}
-				fa, isFA := st.Addr.(*ssa.FieldAddr)
-				if !isFA || ir.FieldNameOf(fa.X.Type(), fa.Field) != "Status" || ir.Resolve(fa.X) != recv {
-					continue
-				}
-				if k, isC := ir.ConstInt(st.Val); isC && k == running && ir.Precedes(st, ci) {
-					ok = true
+	// the /status branch may live in a helper of the handler (virtual inlining view)
+	for _, hf := range sortedFns(e.inlinedSet(h, nil)) {
+		for _, ci := range ir.CallsIn(hf, func(c *ssa.CallCommon) bool { return strings.HasSuffix(ir.CalleeName(c), "model.Status).ToJSON") }) {
+			recv := ir.Resolve(ci.Common().Args[0])
+			for _, b := range hf.Blocks {
+				for _, in := range b.Instrs {
+					st, isS := in.(*ssa.Store)
+					if !isS {
+						continue
+					}
+					fa, isFA := st.Addr.(*ssa.FieldAddr)
+					if !isFA || ir.FieldNameOf(fa.X.Type(), fa.Field) != "Status" || ir.Resolve(fa.X) != recv {
+						continue
+					}
+					if k, isC := ir.ConstInt(st.Val); isC && k == running && ir.Precedes(st, ci) {
+						ok = true
+					}
 				}
 			}
 		}
